@@ -217,6 +217,15 @@ async fn refs_case(net: &Net, rng: &mut Rng) -> Case {
     r.case("C03Case", if concurrent { "refs_concurrent" } else { "refs" }, f, json!({}))
 }
 
+/// exactly 2048 (or 2047 / 2049 / 4096) rows of one day fetched in one pull, one with a reference
+async fn batch_boundary(net: &Net, k: u64) -> Case {
+    let mut r = Runner::new(net, 2).await;
+    let t0 = std::time::Instant::now();
+    batch_boundary_history(&mut r, k).await;
+    let f = r.settle(T0 + DAY, 3).await;
+    r.case("C03Case", "batch_boundary", f, json!({"rows_of_the_day": k, "harness_seconds": t0.elapsed().as_secs_f64()}))
+}
+
 async fn random_case(net: &Net, rng: &mut Rng, deletions: bool) -> Case {
     let n = 2 + rng.below(3) as usize;
     let mut r = Runner::new(net, n).await;
@@ -263,6 +272,8 @@ async fn main() {
     out.push(tomb_other_version(&net).await);
     out.push(two_versions(&net).await);
     out.push(batching(&net).await);
+    out.push(batch_boundary(&net, 2048).await);
+    if tier_thorough() { for k in [2047, 2049, 4096] { out.push(batch_boundary(&net, k).await); } }
     out.push(concurrent_refs(&net, false).await);
     out.push(concurrent_refs(&net, true).await);
     out.push(ref_readd(&net).await);
